@@ -87,4 +87,60 @@ theorem loc_lines_are_parser_lines (s : Bytes) : countLocs (splitLines (normNl s
 
 example : normNl [120, 13, 10, 121, 13, 122, 10] = [120, 10, 121, 10, 122, 10] := by decide
 
+/-! ### counts partition the findings; totals are order-independent and additive -/
+
+/-- **every finding is counted exactly once per criterion**: with positive weights the four per-rank counts of a criterion add up to the
+number of reported findings of the file — no finding is dropped from, or counted twice in, the severity (or confidence) breakdown -/
+theorem counts_partition (w : Weights) (fs : List Finding) (c : Criterion) (hw : ∀ r, 0 < w r) :
+    issueCount w fs c .undefined + issueCount w fs c .low + issueCount w fs c .medium + issueCount w fs c .high = fs.length := by
+  rw [count_exact w fs c _ (hw _), count_exact w fs c _ (hw _), count_exact w fs c _ (hw _), count_exact w fs c _ (hw _)]
+  induction fs with
+  | nil => rfl
+  | cons f fs ih =>
+    simp only [List.filter_cons, List.length_cons]
+    cases h : rankOf c f <;> simp <;> omega
+
+/-- **one more finding moves exactly one counter by one**: reporting an additional finding raises the count of its own rank by 1 and
+leaves the count of every other rank of that criterion unchanged -/
+theorem count_cons (w : Weights) (f : Finding) (fs : List Finding) (c : Criterion) (r : Rank) (hw : 0 < w r) :
+    issueCount w (f :: fs) c r = issueCount w fs c r + (if rankOf c f = r then 1 else 0) := by
+  rw [count_exact w _ c r hw, count_exact w _ c r hw, List.filter_cons]
+  by_cases h : rankOf c f = r <;> simp [h]
+
+/-- counts do not depend on the order in which the findings of a file were reported -/
+theorem count_order_independent (w : Weights) (fs fs' : List Finding) (h : fs.Perm fs') (c : Criterion) (r : Rank) (hw : 0 < w r) :
+    issueCount w fs c r = issueCount w fs' c r := by
+  rw [count_exact w _ c r hw, count_exact w _ c r hw]
+  exact (h.filter _).length_eq
+
+/-- **totals do not depend on the order in which files were scanned**: any permutation of the per-file blocks gives the same totals,
+for every counter -/
+theorem totals_order_independent (ms ms' : List FileMetrics) (h : ms.Perm ms') :
+    (aggregate ms).loc = (aggregate ms').loc ∧ (aggregate ms).nosec = (aggregate ms').nosec ∧
+    (aggregate ms).skippedTests = (aggregate ms').skippedTests ∧
+    ∀ c r, (aggregate ms).counts c r = (aggregate ms').counts c r := by
+  refine ⟨?_, ?_, ?_, fun c r => ?_⟩ <;> exact (h.map _).sum_nat
+
+/-- **totals are additive over a split of the file list** (scanning `A ++ B` totals what scanning `A` and `B` total together) -/
+theorem totals_additive (a b : List FileMetrics) :
+    (aggregate (a ++ b)).loc = (aggregate a).loc + (aggregate b).loc ∧
+    (aggregate (a ++ b)).nosec = (aggregate a).nosec + (aggregate b).nosec ∧
+    (aggregate (a ++ b)).skippedTests = (aggregate a).skippedTests + (aggregate b).skippedTests ∧
+    ∀ c r, (aggregate (a ++ b)).counts c r = (aggregate a).counts c r + (aggregate b).counts c r := by
+  simp [aggregate]
+
+/-- the grand total of a criterion's four counts over all files is the number of findings reported in the run -/
+theorem total_counts_partition (w : Weights) (files : List (List Bytes × List Event)) (c : Criterion) (hw : ∀ r, 0 < w r) :
+    let t := aggregate (files.map fun f => fileMetrics w f.1 f.2)
+    t.counts c .undefined + t.counts c .low + t.counts c .medium + t.counts c .high
+      = (files.map fun f => (findingsOf f.2).length).sum := by
+  intro t
+  induction files with
+  | nil => rfl
+  | cons f fs ih =>
+    have hp := counts_partition w (findingsOf f.2) c hw
+    simp only [t, aggregate, fileMetrics, List.map_cons, List.sum_cons] at ih hp ⊢
+    omega
+
+
 end Props.C12
